@@ -213,6 +213,11 @@ def _instances(quick):
         for t in R.tonics("Diatonic", max_acc):
             for o in range(1, max_oct + 1):
                 res.append(["Diatonic", t, o, pair])
+    # the two semitone positions written the other way round (a position set, not a sequence)
+    for pair in R.DIATONIC_PAIRS:
+        for t in ("C", "F#", "Bb", "Eb"):
+            res.append(["Diatonic", t, 1, list(reversed(pair))])
+            res.append(["Diatonic", t, 2, list(reversed(pair))])
     return res
 
 
